@@ -27,6 +27,61 @@ pub fn read_only_op(rng: &mut Rng, pool: usize) -> Op {
 
 // ---------------------------------------------------------------- C15
 
+/// close; snapshot bytes; reopen (possibly with other buffer parameters); read-only session; close; compare
+fn c15_cycle<K: Kt>(a: &Args, s: &mut Session<K>, h: &History, upto: usize, n_ro: usize, ctx: &mut Ctx, rng: &mut Rng) -> Option<Stop> {
+    let mon = Mon::default();
+    s.close();
+    let dir = s.dir.clone();
+    let before = match Image::read(&dir, "m") {
+        Ok(i) => i,
+        Err(e) => return Some(Stop::Harness(e.to_string())),
+    };
+    let cfg = if rng.chance(1, 2) { h.cfg } else { Cfg { buckets: h.cfg.buckets, key: Cfg::random_buf(rng), val: Cfg::random_buf(rng), htx: Cfg::random_buf(rng) } };
+    if let Err(e) = s.open(&cfg) {
+        return Some(ctx.classify(finding(&["C02"], "reopen", upto, e)));
+    }
+    let ro = History { kt: h.kt.clone(), cfg, keys: h.keys.clone(), ops: (0..n_ro).map(|_| read_only_op(rng, h.keys.len())).collect(), origin: "read-only session".into() };
+    let r = run_ops(s, &ro, 0, &mon, ctx);
+    s.close();
+    ctx.count("read_only_sessions", 1);
+    ctx.count("read_only_calls", r.calls as u64);
+    ctx.count(&format!("session_at_item_count.{}", if s.model.len() <= 16 { format!("{:02}", s.model.len()) } else { "17plus".into() }), 1);
+    if let Some(st) = r.stop {
+        // a wrong answer of a read-only call belongs to another property; the file comparison still applies
+        if matches!(st, Stop::Violation(_) | Stop::Harness(_)) {
+            return Some(st);
+        }
+        ctx.record_stop(st, None);
+    }
+    let after = match Image::read(&dir, "m") {
+        Ok(i) => i,
+        Err(e) => return Some(Stop::Harness(e.to_string())),
+    };
+    ctx.count("file_bytes_compared", after.total_len().min(1 << 32));
+    if let Some(d) = before.diff(&after) {
+        let mut hh = h.clone();
+        hh.ops.truncate(upto);
+        hh.ops.push(Op::Reopen(cfg));
+        hh.ops.extend(ro.ops.iter().cloned());
+        let f = finding(&["C15"], "side_effect", upto, format!("after a session of {} read-only calls ({} items, table {} buckets, buffers {}) the files differ from before: {d}", r.calls, s.model.len(), s.n_buckets, cfg.text()));
+        let st = ctx.classify(f);
+        ctx.record_stop(st, Some(&hh));
+        return Some(Stop::Harness("stop".into()));
+    }
+    if before.htx.len() < 4_000_000 {
+        let dg = before.digest();
+        ctx.digests.insert(dg);
+        if upto > 0 {
+            ctx.nontrivial.insert(dg);
+        }
+    }
+    // continue the update history
+    if let Err(e) = s.open(&h.cfg) {
+        return Some(ctx.classify(finding(&["C02"], "reopen", upto, e)));
+    }
+    None
+}
+
 fn c15_case<K: Kt>(a: &Args, h: &History, ctx: &mut Ctx, rng: &mut Rng) -> Option<Stop> {
     let dir = a.scratch.join("c15");
     let _ = std::fs::remove_dir_all(&dir);
@@ -35,60 +90,25 @@ fn c15_case<K: Kt>(a: &Args, h: &History, ctx: &mut Ctx, rng: &mut Rng) -> Optio
         Ok(s) => s,
         Err(e) => return Some(ctx.classify(finding(&["C07"], "create", 0, e))),
     };
-    // build the state
-    let r = run_ops(&mut s, h, 0, &mon, ctx);
-    if let Some(st) = r.stop {
-        return Some(st);
+    let n_ro = a.get_u64("ro_ops", 150) as usize;
+    let mut bits = Rng::new(5);
+    let mut next_cycle = 0usize; // the freshly created, never updated map is a state too
+    for (i, op) in h.ops.iter().enumerate() {
+        if i == next_cycle {
+            if let Some(st) = c15_cycle(a, &mut s, h, i, n_ro / 3, ctx, rng) {
+                return if matches!(&st, Stop::Harness(m) if m == "stop") { None } else { Some(st) };
+            }
+            next_cycle = i + rng.range(20, 260) as usize;
+        }
+        if let Err(f) = s.apply(i, op, &h.keys, &mon, ctx, bits.next()) {
+            return Some(ctx.classify(f));
+        }
+    }
+    // the final state gets the long session
+    if let Some(st) = c15_cycle(a, &mut s, h, h.ops.len(), n_ro, ctx, rng) {
+        return if matches!(&st, Stop::Harness(m) if m == "stop") { None } else { Some(st) };
     }
     s.close();
-    let before = match Image::read(&dir, "m") {
-        Ok(i) => i,
-        Err(e) => return Some(Stop::Harness(e.to_string())),
-    };
-    // read-only session (possibly opened with other buffer parameters)
-    let sessions = 2;
-    for sn in 0..sessions {
-        let cfg = if sn == 0 { h.cfg } else { Cfg { buckets: h.cfg.buckets, key: Cfg::random_buf(rng), val: Cfg::random_buf(rng), htx: Cfg::random_buf(rng) } };
-        if let Err(e) = s.open(&cfg) {
-            return Some(ctx.classify(finding(&["C02"], "reopen", 0, e)));
-        }
-        let n_ro = a.get_u64("ro_ops", 150) as usize;
-        let ro = History { kt: h.kt.clone(), cfg, keys: h.keys.clone(), ops: (0..n_ro).map(|_| read_only_op(rng, h.keys.len())).collect(), origin: "read-only session".into() };
-        let r = run_ops(&mut s, &ro, 0, &mon, ctx);
-        s.close();
-        ctx.count("read_only_sessions", 1);
-        ctx.count("read_only_calls", r.calls as u64);
-        if let Some(st) = r.stop {
-            // a wrong answer of a read-only call belongs to another property, but the file comparison still applies
-            if matches!(st, Stop::Violation(_) | Stop::Harness(_)) {
-                return Some(st);
-            }
-            ctx.record_stop(st, None);
-        }
-        let after = match Image::read(&dir, "m") {
-            Ok(i) => i,
-            Err(e) => return Some(Stop::Harness(e.to_string())),
-        };
-        ctx.count("file_bytes_compared", after.total_len().min(1 << 32));
-        if let Some(d) = before.diff(&after) {
-            let first_ro: Vec<String> = ro.sample(400);
-            let _ = first_ro;
-            let mut hh = h.clone();
-            hh.ops.push(Op::Reopen(cfg));
-            hh.ops.extend(ro.ops.iter().cloned());
-            let f = finding(&["C15"], "side_effect", h.ops.len(), format!("after a session of {} read-only calls (table {} buckets, buffers {}) the files differ from before: {d}", r.calls, s.n_buckets, cfg.text()));
-            let st = ctx.classify(f);
-            ctx.record_stop(st, Some(&hh));
-            return None;
-        }
-    }
-    let dg = before.digest();
-    if before.htx.len() < 4_000_000 {
-        ctx.digests.insert(dg);
-        if !s.model.is_empty() || h.ops.iter().any(|o| o.is_update()) {
-            ctx.nontrivial.insert(dg);
-        }
-    }
     ctx.count(&format!("state_class.{}", if s.model.is_empty() { if h.ops.iter().any(|o| o.is_update()) { "emptied_again" } else { "empty" } } else { "populated" }), 1);
     let _ = std::fs::remove_dir_all(&dir);
     None
@@ -104,7 +124,7 @@ pub fn c15(a: &Args) -> Ctx {
     for i in 0..n_hist {
         let kt = pick_kt(&mut rng, 50);
         let class = (a.shard + i) % 4;
-        let mut p = Profile::base(*rng.pick(&[5usize, 40, 300]), match class { 0 => 0, _ => n_ops });
+        let mut p = Profile::base(*rng.pick(&[3usize, 8, 12, 40, 300]), match class { 0 => 0, _ => n_ops });
         p.large_pct = 20;
         p.max_val = 30_000;
         let n = tables[(a.shard * 5 + i) % tables.len()];
@@ -115,6 +135,17 @@ pub fn c15(a: &Args) -> Ctx {
             // emptied again
             for k in 0..h.keys.len() {
                 h.ops.push(Op::Del(k));
+            }
+        }
+        if class == 2 {
+            // a small population of an exact size 0..16 (every small item count occurs)
+            let target = (a.shard * 7 + i) % 17;
+            for k in 0..h.keys.len() {
+                if k < target {
+                    h.ops.push(Op::Put(k, ValSpec { len: (k * 5) as u32, seed: k as u32, kind: 0 }));
+                } else {
+                    h.ops.push(Op::Del(k));
+                }
             }
         }
         ctx.evaluations += 1;
